@@ -179,19 +179,23 @@ def check_odeint(res, model):
     if r.returncode != 0:
         res.violation("correspondence", f"rendered odeint sources do not compile against the Boost stand-in: {r.stdout[-600:]}", {"method": "odeint"})
         return
-    for mx, n in itertools.product((1, 5, 500), (0, 1, 4, 5, 6, 499, 500, 501, 1000)):
-        out = run_bin(exe, d, n, mx, 100.0, 5.0)
-        case = {"kind": "c19-odeint", "mxsteps": mx, "observer_calls": n}
+    # the budget is given to Init, or to Init and then changed through Reset (the budget in force is the last one given)
+    for (mx, n), via in itertools.product(itertools.product((1, 5, 500), (0, 1, 4, 5, 6, 499, 500, 501, 1000)), (None, 3, 700)):
+        if via == mx:
+            continue
+        out = run_bin(exe, d, n, mx, 100.0, 5.0, *([via] if via is not None else []))
+        case = {"kind": "c19-odeint", "mxsteps": mx, "observer_calls": n, "init_budget_before_reset": via}
         flag = int(out[0])
         if (n > mx) != (flag != 0):
-            res.violation("oracle", f"odeint: {n} observer calls with mxsteps={mx}: Solve returns {flag}", case)
+            res.violation("oracle", f"odeint: {n} observer calls with mxsteps={mx}"
+                                    + (f" (set through Reset after Init with {via})" if via is not None else "") + f": Solve returns {flag}", case)
         if model is not None:
             m = model.call("solve.odeint", mx, n)
             if (m == "success") != (flag == 0):
                 res.corr_disagreements += 1
                 res.violation("correspondence", f"odeint: mxsteps={mx} calls={n}: implementation {flag}, model {m}", case)
         res.count("odeint runs")
-        res.case(("c19-odeint", mx, n), nontrivial=n > 0)
+        res.case(("c19-odeint", mx, n, via), nontrivial=n > 0)
     # PyWrapSolve of the odeint back-end drops the flag (text)
     src = (d / "src" / "naunet.cpp").read_text()
     m = re.search(r"PyWrapSolve\(.*?\n\}", src, re.S)
